@@ -45,18 +45,18 @@ def run(ctx):
             # round trip over the lengths (every KDF block-count class), every layout, helper chains of length 1
             shard("lenA", ["r1"], lens[0::2], ["r1"], both, chain=1),
             shard("lenB", ["one"], lens[1::2], ["r1"], both, chain=1),
-            # structured scalars and keys
-            shard("edge", ["r2", "nm2"], [1, 33], ["one", "nm1", "shortx", "shorty", "r2"], both),
+            # structured scalars (1, n-1, [k]G with a short coordinate) and the largest key
+            shard("edge", ["nm2"], [1, 33], ["one", "nm1", "shortx", "shorty"], both),
             # everything that must be refused + the scalar with an all-zero mask (A5/B4)
-            shard("negA", ["r1"], [1, 32, 33, 65], ["r1"], both, neg=True),
+            shard("negA", ["r1"], [1, 33, 65], ["r1"], both, neg=True),
             shard("negB", ["std"], [1, 2, 33], ["r2", "zt"], both, neg=True),
             # every single-byte corruption, every truncation
             shard("tam1", ["r1"], [1], ["r2"], both, tlens=[1], masks=[1, 128], workers=4),
-            shard("tam33", ["r1"], [33], ["r2"], ["rand"], tlens=[33], masks=[1, 128], workers=4),
+            shard("tam33", ["r1"], [33], ["r2"], ["rand"], lays=["u32", "c23", "asn1"], tlens=[33], masks=[1, 128], workers=4),
             # helper chains of length <= 3 from every layout
             shard("chain", ["r1"], [1, 33], ["r1"], both, chain=3, workers=2),
             # the memoised decryption is the definition (both evaluated on every variant of this small instance)
-            shard("refine", ["r2", "std"], [1, 2], ["r1", "zt"], both, lays=["u32", "c23", "asn1"], neg=True, tlens=[1], masks=[128], chain=1,
+            shard("refine", ["std"], [1, 2], ["r1", "zt"], ["rand"], lays=["c23", "asn1"], neg=True, tlens=[1], masks=[128], chain=1,
                   refine=True, workers=4),
         ]
     else:
@@ -74,7 +74,7 @@ def run(ctx):
             shard("tam33", ["r3"], [33], ["r2"], both, tlens=[33], masks=[1, 128, 255], workers=4),
             shard("tamsx", ["r1"], [33], ["shortx", "shorty"], ["rand"], tlens=[33], masks=[128], workers=3),
             shard("chain", ["r1", "nm2"], [1, 32, 33, 65], ["r1", "shortx", "shorty"], both, chain=3, workers=4),
-            shard("refine", ["r2", "std"], [1, 2, 33], ["r1", "zt"], both, neg=True, tlens=[1, 2], masks=[128], chain=2, refine=True, workers=4),
+            shard("refine", ["std"], [1, 2, 33], ["r1", "zt"], both, neg=True, tlens=[1, 2], masks=[128], chain=2, refine=True, workers=4),
         ]
     jobs, outs = [], []
     for s in sh:
@@ -92,7 +92,7 @@ def run(ctx):
                      invariants=("TypeOK",)))
     oenv = os.path.join(ctx.scratch, "c07-env.ndjson")
     jobs.append(dict(module="MC_C07env", name="MC_C07env", view="View", workers=3, timeout=1800, heap="2g",
-                     constants=dict(Seed=ctx.seed, OutFile=core.tla_str(oenv), Keys=q(["r1", "nm2"] if quick else ["r1", "r2", "one", "nm2"]),
+                     constants=dict(Seed=ctx.seed, OutFile=core.tla_str(oenv), Keys=q(["r1"] if quick else ["r1", "r2", "one", "nm2"]),
                                     Masks=S([128] if quick else [1, 128])),
                      invariants=("TypeOK", "EnvOK")))
     ctx.tlc_many(jobs, parallel=len(jobs))
